@@ -1917,3 +1917,15 @@ V('C07', 'midnight-wrap-or', CRON, "                if nowt.hour == 23 and wakeu
 V('C07', 'delay-minutes-scaled-as-hours', CRON, "                    + SEC_PER_MIN*(wakeup.minute - nowt.minute)", "                    + SEC_PER_HOUR*(wakeup.minute - nowt.minute)", 'R07.8')
 V('C07', 'delay-sign-of-seconds', CRON, "                    + (wakeup.second - nowt.second)", "                    + (nowt.second - wakeup.second)", 'R07.8')
 E('C07', 'delay-terms-reordered', CRON, "                sleeptime = (SEC_PER_HOUR*(wakeup.hour - nowt.hour)\n                    + SEC_PER_MIN*(wakeup.minute - nowt.minute)", "                sleeptime = (SEC_PER_MIN*(wakeup.minute - nowt.minute)\n                    + SEC_PER_HOUR*(wakeup.hour - nowt.hour)")
+
+# ---- further mutation-sweep survivors
+V('C06', 'storage-check-not-called', SIM, "            self._check_persistent_data()\n", "", 'R06.8')
+V('C08', 'run-tasks-cancels-only-done-tasks', SIM, '''            for _, task, _ in btt_list:
+                if not task.done():
+                    task.cancel()''', '''            for _, task, _ in btt_list:
+                if task.done():
+                    task.cancel()''', 'R08.5')
+E('C08', 'run-tasks-cancels-unconditionally', SIM, '''            for _, task, _ in btt_list:
+                if not task.done():
+                    task.cancel()''', '''            for _, task, _ in btt_list:
+                task.cancel()''')
